@@ -110,4 +110,8 @@ EDITS = [
     ("C19", VX, "let delta = current.wrapping_sub(previous.unwrap_or(current));", "let base = previous.unwrap_or(current);\n            let delta = current.wrapping_sub(base);"),
     ("C20", CB, "let mut fifo = chronobox_fifo(&mut input);\n", "let mut fifo = chronobox_fifo(&mut input);\n            let _n_entries = fifo.len();\n"),
     ("C20", CB, "let fifo = fifo.split_off(epoch_0_index);\n", "let fifo = fifo.split_off(epoch_0_index);\n            let _n_kept = fifo.len();\n"),
+    # ---- the calibration chains of try_from_banks (verified as loops since the continuation session)
+    ("C10", LIB, "if !signal.is_empty() {\n                            wire_signals[wire_index] = Some(signal);", "if signal.len() > 0 {\n                            wire_signals[wire_index] = Some(signal);"),
+    ("C10", LIB, "let signal: Vec<_> = waveform\n                            .iter()\n                            .skip(delay)\n                            // Convert to i32 to avoid overflow", "let signal: Vec<f64> = waveform\n                            .iter()\n                            .skip(delay)\n                            // Convert to i32 to avoid overflow"),
+    ("C10", LIB, "if !signal.is_empty() {\n                            pad_signals[pad_index.0][pad_index.1] = Some(signal);", "if signal.len() != 0 {\n                            pad_signals[pad_index.0][pad_index.1] = Some(signal);"),
 ]
